@@ -177,7 +177,7 @@ def run_hyp_unit(unit, tier, verif_seed, shard, nshards, kf):
     found = []          # list of Failure (shrunk), distinct keys
     muted = set()
     n_ex = max(1, unit.n_examples(tier) // nshards)
-    for attempt in range(3):
+    for attempt in range(5):
         state = {"target": None, "last": None, "t0": None, "others": set()}
 
         def body(case):
@@ -220,10 +220,10 @@ def run_hyp_unit(unit, tier, verif_seed, shard, nshards, kf):
         except herr.Unsatisfiable as e:
             raise HarnessError("unit %s: generator unsatisfiable: %s" % (unit.name, e))
         if state["last"] is not None:
+            # Hypothesis stops at the first failure: mute this bucket and search again so that
+            # a shallow defect does not hide whatever lies behind it
             found.append(state["last"])
             muted.add(state["target"])
-            if not state["others"]:
-                break
         else:
             break
     res = ctx.result()
